@@ -29,6 +29,12 @@ CLAIMED = {
     "C11": dict(technique="TLA+ references (EmuBits, EmuTimes, EmuQubit) enumerated by TLC, every state executed on both emulators", ref="5 C11",
                 text=FUNC_TEXT + " EmuQubit derives exact populations at Clifford points from the documented Hamiltonian; EmuTimes says which states the V2 backend must store; EmuBits the bit conventions and detection errors over exact rationals. Norm / trace / positivity are monitored observations.",
                 note=FUNC_NOTE + "; V2-vs-legacy states compared within 5e-3", engine="tlc-func"),
+    "C14": dict(technique="case lattice enumerated by TLC (Modulation.tla), measured on the tree, contracts over the quantised observations evaluated by TLC; modulated sampling decided on TLC-generated behaviours", ref="5 C14",
+                text="The filter laws are real-analysis statements: Modulation.tla enumerates the case lattice (waveform class x duration x channel and EOM bandwidth x amplitude x the four modulate() modes) and states the contracts (one rise time per end, linearity, integral, non-negativity, no overshoot, half amplitude at the bandwidth, rise <= fall <= 2 rise, tail beyond the accounted fall time below max(0.01, 0.6% of the peak)) over integer observations; every case is measured on the working tree and TLC evaluates the contracts on every observation. 'Modulated sampling succeeds whenever plain sampling does and ends at duration + fall time' is decided on every state of the render configurations explored by TLC from the scheduler model.",
+                note="the filter clauses are a monitor written in TLA+, not model checking (DESIGN 6); observations quantised to 1e-9 / 1e-6 rad/us; band of 1e-6 of the input maximum on the positivity/overshoot clauses", engine="tlc-func"),
+    "C18": dict(technique="TLA+ model checking (TLC) + replay; switch_device results compared with the original (strict) and judged by TLC against the new device's limits (non-strict)", ref="5 C18",
+                text="TLC explores programs on a base device; every behaviour is replayed on the tree and on every reached state the sequence is switched to 22 device variants (each differing in one channel/device parameter, or in channel order): strict=True must raise or return the identical timeline and samples; the result of strict=False is projected under the new device and TLC evaluates the state invariants of PulserProps (tiling, pulses within the new limits, sequence duration, retarget rules) on it, and it is compared with the model's replay of the recorded calls on that device (SwitchResult in PulserSeqMC.tla). switch_register(same register) is checked on every state of the rel_* configurations.",
+                note="bounded: one base device, 22 variants, call lattice of 16 calls, depth 2 (quick) / 3 (thorough); the strict matching predicate itself is not modelled, only its guarantee is checked"),
     "C16": dict(technique="TLA+ reference (Waveforms.tla) enumerated by TLC, every state executed on the implementation", ref="5 C16",
                 text=FUNC_TEXT + " Window areas / from_max_val / finiteness for all durations are contracts evaluated on the implementation's samples (monitored observations).",
                 note=FUNC_NOTE, engine="tlc-func"),
